@@ -274,7 +274,7 @@ pub fn run(ctx: &Ctx) {
         // verifies — a pre-authentication encoding that goes wrong only in some length window is self-consistent
         // inside one backend and shows only across the pair
         if let Some(kp) = kps.first() {
-            let step = if ctx.thorough() || x == "v4" { 1 } else { 2 };
+            let step = 1;
             'sweep: for len in (0..=600usize).step_by(step) {
                 let msg = content(&mut g, len);
                 for (signer, verifier) in [(bx, by), (by, bx)] {
